@@ -1269,7 +1269,9 @@ func (w *_mapAssembler) AssembleValue() datamodel.NodeAssembler {
 	kval := w.curKey.val
 	val := reflect.New(w.valuesVal.Type().Elem()).Elem()
 	finish := func() error {
-		// TODO: check for duplicates in keysVal
+		if w.valuesVal.MapIndex(kval).IsValid() {
+			return datamodel.ErrRepeatedMapKey{Key: newNode(w.cfg, w.schemaType.KeyType(), kval)}
+		}
 		w.keysVal.Set(reflect.Append(w.keysVal, kval))
 
 		w.valuesVal.SetMapIndex(kval, val)
